@@ -1,6 +1,7 @@
 package main
 
 import (
+	"go/ast"
 	"go/token"
 	"go/types"
 	"regexp/syntax"
@@ -602,4 +603,98 @@ func ruleFillWithinCapacity(c *Ctx) {
 	if n == 0 {
 		c.note("-", "no channel send outside the provider methods", "-", "nothing to decide")
 	}
+}
+
+// ruleArgumentOrder: a call that passes the variable named like the callee's j-th parameter in position i and the one
+// named like the i-th in position j, both of the same type, has its arguments crossed (the compiler cannot tell:
+// the types agree). Names are the only evidence there is; the rule fires on an exact crosswise match only.
+func ruleArgumentOrder(c *Ctx) {
+	p := c.P
+	onPath := map[*ssa.Function]bool{}
+	for _, fn := range p.requestPathFuncs() {
+		onPath[topFunc(fn)] = true
+	}
+	for fn, ok := range p.Roles().MutatorPath {
+		if ok {
+			onPath[topFunc(fn)] = true
+		}
+	}
+	n := 0
+	for _, pk := range p.modulePackages() {
+		info := pk.TypesInfo
+		for _, file := range pk.Syntax {
+			if strings.HasSuffix(p.Fset.Position(file.Pos()).Filename, "_test.go") {
+				continue
+			}
+			for _, d := range file.Decls {
+				fd, ok := d.(*ast.FuncDecl)
+				if !ok || fd.Body == nil {
+					continue
+				}
+				obj, _ := info.Defs[fd.Name].(*types.Func)
+				if obj == nil {
+					continue
+				}
+				sf := p.Prog.FuncValue(obj)
+				if sf == nil || !onPath[sf] {
+					continue
+				}
+				ast.Inspect(fd.Body, func(nd ast.Node) bool {
+					call, ok := nd.(*ast.CallExpr)
+					if !ok {
+						return true
+					}
+					var callee *types.Func
+					switch f := unparen(call.Fun).(type) {
+					case *ast.Ident:
+						callee, _ = info.Uses[f].(*types.Func)
+					case *ast.SelectorExpr:
+						if sel, ok := info.Selections[f]; ok && sel.Kind() == types.MethodVal {
+							callee, _ = sel.Obj().(*types.Func)
+						}
+					}
+					if callee == nil || callee.Pkg() == nil || callee.Pkg().Path() != modulePath {
+						return true
+					}
+					sig := callee.Type().(*types.Signature)
+					if sig.Variadic() || sig.Params().Len() != len(call.Args) || sig.Params().Len() < 2 {
+						return true
+					}
+					n++
+					for i := 0; i < len(call.Args); i++ {
+						ai, ok := unparen(call.Args[i]).(*ast.Ident)
+						if !ok {
+							continue
+						}
+						for j := i + 1; j < len(call.Args); j++ {
+							aj, ok := unparen(call.Args[j]).(*ast.Ident)
+							if !ok {
+								continue
+							}
+							pi, pj := sig.Params().At(i), sig.Params().At(j)
+							if !types.Identical(pi.Type(), pj.Type()) || pi.Name() == "" || pj.Name() == "" || pi.Name() == pj.Name() {
+								continue
+							}
+							// crosswise, or one-sided: the variable named like parameter j sits in position i (or the one
+							// named like i in position j) while the other position is not named like its own parameter
+							crossed := ai.Name == pj.Name() && aj.Name == pi.Name()
+							if !crossed && ai.Name == pj.Name() && aj.Name != pj.Name() && ai.Name != pi.Name() {
+								crossed = true
+							}
+							if !crossed && aj.Name == pi.Name() && ai.Name != pi.Name() && aj.Name != pj.Name() {
+								crossed = true
+							}
+							if crossed {
+								c.bad(declDisplayName(fd), "arguments "+ai.Name+" and "+aj.Name+" of "+callee.Name()+" are crossed", p.pos(call.Pos()),
+									callee.Name()+" declares ("+pi.Name()+", "+pj.Name()+") and is called with ("+ai.Name+", "+aj.Name+"): both have type "+types.TypeString(pi.Type(), nil)+", so the compiler accepts the swap; the template is then matched against the request (or the other way round)")
+							}
+						}
+					}
+					return true
+				})
+			}
+		}
+	}
+	c.count("calls_examined", n)
+	c.ok("-", "calls examined for crossed same-typed arguments", "-", itoa(n)+" calls of module functions with two or more parameters")
 }
